@@ -888,6 +888,34 @@ def check(tier: str, seed: int, t0: float, build: core.BuildStatus) -> int:
             if i < 2 and backend == "atlas":
                 samples.append({"direct_application_base": base, "variant": src_of(var)})
 
+    # ---- terminal forms whose Python spelling the wire format does not keep (tuple / list / single string of column
+    #      names, tuple / list / dict rows): the AST and its qastle round trip must give the same package or the same refusal
+    for backend in BACKENDS:
+        cname, bank, _ = UNIVERSE[backend][0]
+        obj = f'ds.SelectMany(lambda e: e.{cname}("{bank}"))'
+        forms = [f'{obj}.Select(lambda j: (j.pt(), j.eta())).AsROOTTTree("f.root", "t", ("a", "b"))',
+                 f'{obj}.Select(lambda j: (j.pt(), j.eta())).AsROOTTTree("f.root", "t", ["a", "b"])',
+                 f'{obj}.Select(lambda j: [j.pt(), j.eta()]).AsROOTTTree("f.root", "t", ("a", "b"))',
+                 f'{obj}.Select(lambda j: j.pt()).AsROOTTTree("f.root", "t", "a")',
+                 f'{obj}.Select(lambda j: j.pt()).AsROOTTTree("f.root", "t", ("a",))',
+                 f'{obj}.Select(lambda j: j.pt()).AsROOTTTree("f.root", "t", ["a"])',
+                 f'{obj}.Select(lambda j: (j.pt(),)).AsROOTTTree("f.root", "t", ("a",))',
+                 f'{obj}.Select(lambda j: (j.pt(), j.eta())).AsROOTTTree("f.root", "t", ("a",))',
+                 f'{obj}.Select(lambda j: [j.pt(), j.eta()])',
+                 f'{obj}.Select(lambda j: (j.pt(), j.eta()))',
+                 f'{obj}.Select(lambda j: {{"x": j.pt(), "y": j.eta()}})',
+                 f'ds.Select(lambda e: (e.{cname}("{bank}").Select(lambda j: j.pt()), e.{cname}("{bank}").Count()))']
+        for base in forms:
+            a_src = with_kids_md(base, backend)
+            ra = run_query(a_src, backend)
+            rb = run_query(a_src, backend, rt=True)
+            per_backend[backend] += 1
+            record("qastle", ra, rb)
+            if ra != rb:
+                violation("c08:qastle", f"qastle round trip changes the translation: {describe(ra, rb)}; query = {base}",
+                          {"kind": "pair", "variant": "qastle", "backend": backend, "a": a_src, "b": a_src, "roundtrip_b": True,
+                           "broken": "oracle: the package of the qastle-round-tripped AST equals that of the Python AST (third-party qastle, differential only)"})
+
     # ---- differential variants on generated queries ---------------------------------------------
     t_gen = time.time()
     STRATS = ["fresh", "same", "shadow", "coll", "func", "cpp", "arg", "mixed"]
